@@ -450,11 +450,30 @@ class Extract(object):
     def run_hyphen(self, key, lo_shape, up_shape, ctx=None):
         prog = self.prog
 
+        def answer(interp, p):
+            while p.kind in ("context", "cut_err"):
+                p = p.args[0]
+            if p.kind == "opt":
+                inner = gram.strip(p.args[0])
+                if inner.kind == "ref" and inner.extra != "range::partial_version":
+                    return NONE                                   # some other optional piece of syntax
+                return NONE if lo_shape is None else some(mk_partial(prog, lo_shape, "lo:"))
+            if p.kind == "ref" and p.extra == "range::partial_version":
+                return mk_partial(prog, up_shape, "up:")          # a partial that is not optional: the upper side
+            if p.kind == "seq":
+                return tuple(answer(interp, a) for a in p.args)   # `(opt(partial), delimited(..), partial)` parsed as one tuple
+            if p.kind == "map":
+                return interp.call_value(p.extra, [answer(interp, p.args[0])])
+            if p.kind in ("preceded", "terminated", "delimited"):
+                # the value of the one element that is kept
+                keep = {"preceded": 1, "terminated": 0, "delimited": 1}[p.kind]
+                if keep < len(p.args) and isinstance(p.args[keep], gram.P):
+                    return answer(interp, p.args[keep])
+            return Tok("O", "tok")
+
         class Pol(Policy):
             def parse_next(pself, interp, p, inp, info):
-                if p.kind == "opt":
-                    return ok(NONE if lo_shape is None else some(mk_partial(prog, lo_shape, "lo:")))
-                return ok(Tok("O", "tok"))
+                return ok(answer(interp, p))
         ov = {"range::BoundSet::new": self.new_stub,
               "range::partial_version": lambda interp, args, info: ok(mk_partial(prog, up_shape, "up:"))}
         it = Interp(prog, Pol(), ctx=ctx, overrides=ov)
